@@ -1033,7 +1033,14 @@ func (ru *Runner) doHTTP(foff, flen, a, b int64) string {
 	if !ok {
 		return "nofile"
 	}
-	srv := httptest.NewServer(storhttp.VerifMux())
+	// the handler returns (its deferred reader.Close() has run) after the client has the
+	// whole response: wait for the handler itself, not for the response
+	handlerDone := make(chan struct{})
+	mux := storhttp.VerifMux()
+	srv := httptest.NewServer(http.HandlerFunc(func(w http.ResponseWriter, r *http.Request) {
+		defer close(handlerDone)
+		mux.ServeHTTP(w, r)
+	}))
 	hctx, hcancel := context.WithCancel(context.Background())
 	defer func() {
 		// never wait for a handler that may be stuck: cancel the request (the handler's
@@ -1071,6 +1078,12 @@ func (ru *Runner) doHTTP(foff, flen, a, b int64) string {
 	if r.err != nil {
 		ru.violate("http:error", r.err.Error())
 		return "err"
+	}
+	select {
+	case <-handlerDone:
+	case <-time.After(ru.Watchdog):
+		ru.violate("hang:http", fmt.Sprintf("the handler of GET bytes=%d-%d of file(%d,%d) did not return after the response was complete", a, b, foff, flen))
+		return "hang"
 	}
 	ru.tag(fmt.Sprintf("http:%d", r.status))
 	if a > b || a >= flen {
